@@ -91,6 +91,57 @@ func (ps *parser) expectIdent(s string) {
 	ps.next()
 }
 
+// DeclError is a definition that could not be parsed (ParseFileLenient).
+type DeclError struct {
+	Name string
+	Err  error
+}
+
+// ParseFileLenient parses what it can: a sentence that does not parse is skipped (up to the next
+// "Definition"/"Notation" keyword that starts a line) and reported with the name it tried to define.
+func ParseFileLenient(src string) (*File, []DeclError) {
+	f, err := ParseFile(src)
+	if err == nil {
+		return f, nil
+	}
+	// split into chunks at lines starting a new vernacular sentence and parse each chunk on its own
+	lines := strings.Split(src, "\n")
+	var chunks []string
+	var cur []string
+	flush := func() {
+		if len(cur) > 0 {
+			chunks = append(chunks, strings.Join(cur, "\n"))
+			cur = nil
+		}
+	}
+	for _, ln := range lines {
+		if strings.HasPrefix(ln, "Definition ") || strings.HasPrefix(ln, "Notation ") || strings.HasPrefix(ln, "Theorem ") ||
+			strings.HasPrefix(ln, "From ") || strings.HasPrefix(ln, "Section ") || strings.HasPrefix(ln, "End ") || strings.HasPrefix(ln, "(* ") {
+			flush()
+		}
+		cur = append(cur, ln)
+	}
+	flush()
+	out := &File{}
+	var errs []DeclError
+	for _, ch := range chunks {
+		pf, err := ParseFile(ch)
+		if err != nil {
+			name := ""
+			fs := strings.Fields(ch)
+			if len(fs) > 1 && (fs[0] == "Definition" || fs[0] == "Notation") {
+				name = strings.TrimSuffix(fs[1], ":")
+			}
+			errs = append(errs, DeclError{Name: name, Err: err})
+			continue
+		}
+		out.Decls = append(out.Decls, pf.Decls...)
+		out.Header = append(out.Header, pf.Header...)
+		out.Section = out.Section || pf.Section
+	}
+	return out, errs
+}
+
 // ParseFile parses a whole emitted .v file.
 func ParseFile(src string) (f *File, err error) {
 	toks, lerr := Lex(src)
